@@ -879,10 +879,11 @@ func genProxyError() (string, error) {
 			"s.onUpstreamReset(s.resetReason.Load())": "let s := o.onUpstreamReset s",
 			"s.ResetStream(s.resetReason.Load())":     "let s := o.resetStream s",
 			"variable.SetString(s.context, types.VarProxyIsDirectResponse, types.IsDirectResponse)": "let s := o.markDirect s",
-			"s.directResponse = false":             "let s := o.setDirectResponse s false",
-			"s.retryState = nil":                   "let s := o.clearRetryState s",
-			"s.upstreamRequest.setupRetry = false": "let s := o.setSetupRetry s false",
-			"phase = s.receiverFiltersAgainPhase":  "let phase := o.againPhase s",
+			"s.directResponse = false":                        "let s := o.setDirectResponse s false",
+			"s.retryState = nil":                              "let s := o.clearRetryState s",
+			"if s.retryState != nil { s.retryState.reset() }": "let s := o.releaseRetry s",
+			"s.upstreamRequest.setupRetry = false":            "let s := o.setSetupRetry s false",
+			"phase = s.receiverFiltersAgainPhase":             "let phase := o.againPhase s",
 		},
 		skip: isLogStmt,
 	}
@@ -937,6 +938,7 @@ structure Ops (σ : Type) where
   resetStream : σ → σ
   markDirect : σ → σ
   setDirectResponse : σ → Bool → σ
+  releaseRetry : σ → σ
   clearRetryState : σ → σ
   setSetupRetry : σ → Bool → σ
   setAgainPhase : σ → Phase → σ
